@@ -18,7 +18,7 @@ COMPONENTS = dict(
     real=['udpcl.agent.Agent (both ends)', 'udpcl.config', 'cbor2', 'repo code at /repo/src working tree'],
     simulated=['GLib main contexts + monotonic / wall clocks', 'UDP sockets and network with drop / duplicate / reorder / delay (dsim.net)', 'D-Bus (dsim.dbusmod)'],
     stub=['portion (integer interval shim)', 'dtls (absent: DTLS never enabled)', 'yaml (import only)'])
-PROBES = ('xfer.segmented', 'xfer.unsegmented', 'dg.drop', 'dg.dup', 'dg.delay', 'foreign.multi_message', 'foreign.padding', 'foreign.twin_peers_same_ip', 'foreign.transfer_id_reused', 'profile.clean', 'profile.reorder',
+PROBES = ('xfer.segmented', 'xfer.unsegmented', 'dg.drop', 'dg.dup', 'dg.delay', 'foreign.multi_message', 'foreign.padding', 'foreign.twin_peers_same_ip', 'foreign.transfer_id_reused', 'cfg.polling', 'profile.clean', 'profile.reorder',
           'profile.dup', 'profile.drop', 'bundles.delivered', 'ecn.enabled')
 ASSUMPTIONS = ['"exactly one copy" is demanded only when every segment arrives exactly once (clean and reorder profiles); under duplication or loss only '
                '"never partial or corrupted"', 'MTUs below the fixed extension overhead are not generated (the sender cannot satisfy them)',
@@ -79,7 +79,7 @@ def gen(ch, tier):
                           t=1000 * ch.pick('reuse.t', 2000), gap=1000 * ch.choice('reuse.gap', (700, 1500))))
     ecn = ch.coin('ecn', 1, 4)
     return dict(scenario='udpcl_pair', kind='udpcl', profile=profile, net=net, mtu=mtu, sends=sends, foreign=foreign, twins=twins, reuse=reuse, ecn=ecn,
-                cfg={'*': dict(mtu_default=mtu, node_id='dtn://u/', ecn_init=ecn, ecn_feedback=ecn)})
+                cfg={'*': dict(mtu_default=mtu, node_id='dtn://u/', ecn_init=ecn, ecn_feedback=ecn, poll_ms=ch.choice('poll', (None, None, None, 100, 400)))})
 
 
 def bundle_bytes(tag, plen):
@@ -114,6 +114,8 @@ def _drive(run, plan, har):
     wld = har.wld
     stats = run.stats
     stats['profile.' + plan['profile']] = 1
+    if plan['cfg']['*'].get('poll_ms'):
+        stats['cfg.polling'] = 1
     if plan['ecn']:
         stats['ecn.enabled'] = 1
     sent = {'U1': [], 'U2': []}     # bodies addressed to each receiver
